@@ -562,6 +562,10 @@ func writeHeaderOnlyResponse(w io.Writer, res *http.Response) error {
 				return err
 			}
 		}
+
+		if _, err := io.WriteString(w, "\r\n"); err != nil {
+			return err
+		}
 	}
 
 	// End-of-header
